@@ -38,12 +38,18 @@ def fromBE16 (b : Bytes) : Nat :=
 def record (ty : UInt8) (ver : Bytes) (data : Bytes) : Bytes :=
   ty :: ver ++ be16 data.length ++ data
 
+/-- `len(chunk) > maxTLSRecordDataLength` — the translation of the Go condition found in the loop of
+`FakeTLS.Write` (constantly false when there is no loop). -/
+def splitNeeded (n : Nat) : Bool := Facts.C19.splitNeeded n
+/-- `chunk[:maxTLSRecordDataLength]` — the translated cut position. -/
+def splitAt : Nat := (Facts.C19.splitAt).toNat
+
 /-- The chunks `FakeTLS.Write` cuts its argument into (at least one, possibly empty).
 `fuel` bounds the recursion; `b.length` is always enough. -/
 def chunksF : Nat → Bytes → List Bytes
   | 0, b => [b]
   | fuel + 1, b =>
-    if b.length ≤ maxRecord then [b] else b.take maxRecord :: chunksF fuel (b.drop maxRecord)
+    if splitNeeded b.length then b.take splitAt :: chunksF fuel (b.drop splitAt) else [b]
 
 def chunks (b : Bytes) : List Bytes := chunksF b.length b
 
@@ -181,5 +187,38 @@ def readServerHello (hmac : Bytes → Bytes → Bytes) (clientRandom secret : By
   | .ok rest =>
     let packet := packetOf s rest
     if hmac secret (clientRandom ++ zeroDigest packet) = digestOf packet then .ok rest else .error .digest
+
+/-! ## ClientHello (`writeClientHello` after `generateClientHello`) -/
+
+def clientRandomOffset : Nat := Facts.C19.clientRandomOffset
+def clientRandomLength : Nat := Facts.C19.clientRandomLength
+
+/-- Bytewise XOR of two byte strings (the shorter decides the length). -/
+def xorBytes : Bytes → Bytes → Bytes
+  | a :: as, b :: bs => (a ^^^ b) :: xorBytes as bs
+  | _, _ => []
+
+/-- Little-endian bytes of `uint32(now.Unix())`. -/
+def tsBytes (now : Int) : Bytes :=
+  let t := (now % 4294967296).toNat
+  [UInt8.ofNat (t % 256), UInt8.ofNat (t / 256 % 256), UInt8.ofNat (t / 65536 % 256), UInt8.ofNat (t / 16777216 % 256)]
+
+/-- The ClientHello record with its random field zeroed. -/
+def zeroRandom (record : Bytes) : Bytes :=
+  record.take clientRandomOffset ++ List.replicate clientRandomLength 0
+    ++ record.drop (clientRandomOffset + clientRandomLength)
+
+/-- `writeClientHello` on the record produced by `generateClientHello`: the record written and the
+client random returned.  The random field is zeroed, the HMAC of the whole record under the secret is
+put there, and its last four bytes are XORed with the little-endian Unix time
+(`old ^= uint32(now.Unix())` on the little-endian word = bytewise XOR with the little-endian bytes). -/
+def finishClientHello (hmac : Bytes → Bytes → Bytes) (secret : Bytes) (now : Int) (record : Bytes) :
+    Except Err (Bytes × Bytes) :=
+  if record.length < clientRandomOffset + clientRandomLength then .error .tooShort
+  else
+    let z := zeroRandom record
+    let d := (hmac secret z).take clientRandomLength
+    let random := d.take (clientRandomLength - 4) ++ xorBytes (d.drop (clientRandomLength - 4)) (tsBytes now)
+    .ok (record.take clientRandomOffset ++ random ++ record.drop (clientRandomOffset + clientRandomLength), random)
 
 end TdModel.C19
